@@ -23,13 +23,19 @@ POOL = {
     'nV': ('volt * 1e-9', {2: -9, 5: -9, -2: 1, -1: 2, -3: -3, -4: -1}),
     'nV_b': ('volt / 1e9', {2: -9, 5: -9, -2: 1, -1: 2, -3: -3, -4: -1}),
     'nV_c': ('uV * 0.001', {2: -9, 5: -9, -2: 1, -1: 2, -3: -3, -4: -1}),
+    'hour': ('second * 3600', {2: 4, 3: 2, 5: 2, -3: 1}),
+    'us': ('second * 1e-6', {2: -6, 5: -6, -3: 1}),
+    'mm': ('metre * 0.001', {2: -3, 5: -3, -1: 1}),
+    'km': ('metre * 1000', {2: 3, 5: 3, -1: 1}),
+    'ppm': ('dimensionless * 1e-6', {2: -6, 5: -6}),
     'dimensionless': (None, {}),
     'pc': ('dimensionless * 0.01', {2: -2, 5: -2}),
     'metre': (None, {-1: 1}),
     'cm': ('metre * 0.01', {2: -2, 5: -2, -1: 1}),
 }
-FAMILIES = [['second', 'ms', 'minute'], ['volt', 'mV', 'uV', 'nV', 'nV_b', 'nV_c'], ['dimensionless', 'pc'], ['metre', 'cm']]
-TIME_UNITS = ['second', 'ms', 'minute']
+FAMILIES = [['second', 'ms', 'minute', 'hour', 'us'], ['volt', 'mV', 'uV', 'nV', 'nV_b', 'nV_c'], ['dimensionless', 'pc', 'ppm'],
+            ['metre', 'cm', 'mm', 'km']]
+TIME_UNITS = ['second', 'ms', 'minute', 'hour', 'us']
 GEN_NAMES = {-1: 'meter', -2: 'kilogram', -3: 'second', -4: 'ampere', -5: 'kelvin', -6: 'mole', -7: 'candela', -8: 'radian'}
 NAME_GENS = {v: k for k, v in GEN_NAMES.items()}
 
